@@ -10,3 +10,12 @@
 nar_dev_utils::pub_mod_and_pub_use! {
     common_narsese_templates
 }
+
+/// 判断「字符数组切片」是否以指定字符串开头
+/// * ⚠️不使用`nar_dev_utils::StartsWithStr::starts_with_str`：
+///   其在切片比字符串短（且与字符串开头一致）时返回`true`，
+///   会让解析器在输入末尾把被截断的关键字当作完整关键字，进而越界
+pub(crate) fn char_slice_starts_with(slice: &[char], needle: &str) -> bool {
+    let mut chars = slice.iter();
+    needle.chars().all(|c| chars.next() == Some(&c))
+}
